@@ -92,6 +92,18 @@ namespace MASA
    * -------------------------------------------------------------------------------------------
    */
 
+#ifdef MASA_VERIF
+  // verification hook (off unless -DMASA_VERIF): counts live solution objects per precision
+  template <typename Scalar>
+  struct verif_live_token
+  {
+    static long count;
+    verif_live_token()                        { ++count; }
+    verif_live_token(const verif_live_token&) { ++count; }
+    ~verif_live_token()                       { --count; }
+  };
+#endif
+
   template <typename Scalar>
   class manufactured_solution
   {
@@ -341,6 +353,10 @@ namespace MASA
 
     virtual Scalar eval_hellinger (Scalar) {std::cout << "SMASA ERROR:: Hellinger distance is unavailable or not properly loaded.\n";return -1.33;};
     virtual Scalar eval_kolmogorov(Scalar) {std::cout << "SMASA ERROR:: Kolmogorov distance is unavailable or not properly loaded.\n";return -1.33;};
+
+#ifdef MASA_VERIF
+    verif_live_token<Scalar> verif_token;
+#endif
 
   }; // done with MMS base class
 
